@@ -543,6 +543,9 @@ weights every pair of lattice dimensions by `a` (`sqrt a * sqrt a`) -/
 def Amt.pairW (rank : Nat) : Amt → Nat → Nat → Rat
   | .scalar a => fun i j => if i < rank ∧ j < rank then a else 0
   | .perDim l => fun i j => getR l i * getR l j
+/-- hypothesis of the NON-NEGATIVITY clause ("all are non-negative" for non-negative amounts).  Not an
+acceptance condition: the real code accepts negative amounts (and returns negative values) everywhere except
+`math.sqrt` of a negative scalar torsion amount — see `Amt.RootOk` below. -/
 def Amt.Nonneg : Amt → Prop
   | .scalar a => 0 ≤ a
   | .perDim l => ∀ x ∈ l, 0 ≤ x
@@ -716,4 +719,155 @@ theorem twist_sep (L : List Nat) (G : Nat → Nat → Rat) {i j : Nat} (hij : i 
       simp only [coord_setc, length_setc]
       split_ifs <;> subst_vars <;> simp_all
     linarith
+
+/-! ### amounts accepted by the torsion entry point (second audit, row 33)
+
+`Amt.Nonneg` is the hypothesis of the NON-NEGATIVITY clause.  It is stronger than what the code needs to
+run: only `math.sqrt` of a negative SCALAR raises; per-dimension lists of any sign are accepted and simply
+multiplied in (the value can then be negative).  `Amt.RootOk` is exactly "the call does not raise". -/
+def Amt.RootOk : Amt → Prop
+  | .scalar a => 0 ≤ a
+  | .perDim _ => True
+
+theorem Amt.Nonneg.rootOk {a : Amt} (h : a.Nonneg) : a.RootOk := by
+  cases a with
+  | scalar x => exact h
+  | perDim l => trivial
+
+theorem torAmounts_ok_of_rootOk (rank units : Nat) {a : Amt} (h : a.RootOk) :
+    ∃ o, torAmounts rank units a = .ok o ∧ tpair o = a.pairW rank := by
+  unfold torAmounts
+  by_cases ht : a.truthy = true
+  · cases a with
+    | scalar x =>
+      have hx : ¬ x < 0 := not_lt.mpr h
+      simp only [ht, if_true, hx, if_false]
+      exact ⟨_, rfl, by funext i j; simp [tpair, TAmt.pair, Amt.pairW]⟩
+    | perDim l =>
+      simp only [ht, if_true]
+      refine ⟨_, rfl, ?_⟩
+      funext i j
+      simp only [tpair, TAmt.pair, Amt.pairW]
+      split_ifs
+      · rw [getR_append_zero, getR_append_zero]
+      · rfl
+  · have hf : a.truthy = false := by simpa using ht
+    simp only [hf, Bool.false_eq_true, if_false]
+    exact ⟨none, rfl, by funext i j; simp [tpair, falsy_pairW hf]⟩
+
+/-- a negative scalar torsion amount raises (`math.sqrt`: "math domain error") -/
+theorem torAmounts_neg_scalar (rank units : Nat) {x : Rat} (hx : x < 0) :
+    torAmounts rank units (.scalar x) = .error .valueError := by
+  have hne : x ≠ 0 := ne_of_lt hx
+  simp [torAmounts, Amt.truthy, hne, hx]
+
+/-! ### vectors of per-dimension amounts -/
+/-- `a • l + b • l'` entrywise (lists of equal length) -/
+def linComb (a b : Rat) (l l' : List Rat) : List Rat := List.zipWith (fun x y => a * x + b * y) l l'
+
+theorem getR_linComb (a b : Rat) {l l' : List Rat} (h : l.length = l'.length) (d : Nat) :
+    getR (linComb a b l l') d = a * getR l d + b * getR l' d := by
+  unfold getR linComb
+  by_cases hd : d < l.length
+  · have hd' : d < l'.length := h ▸ hd
+    simp [List.getD, List.getElem?_zipWith, List.getElem?_eq_getElem hd, List.getElem?_eq_getElem hd']
+  · have h1 : l.length ≤ d := Nat.le_of_not_lt hd
+    have h2 : l'.length ≤ d := h ▸ h1
+    simp [List.getD, List.getElem?_zipWith, List.getElem?_eq_none h1, List.getElem?_eq_none h2]
+
+theorem getR_set (l : List Rat) (k : Nat) (v : Rat) (d : Nat) :
+    getR (l.set k v) d = if d = k ∧ k < l.length then v else getR l d := by
+  unfold getR
+  by_cases hdk : d = k
+  · subst hdk
+    by_cases hk : d < l.length
+    · simp [List.getD, hk]
+    · simp [List.getD, hk, List.getElem?_eq_none (Nat.le_of_not_lt hk)]
+  · have : ¬ k = d := fun e => hdk e.symm
+    simp [List.getD, hdk, List.getElem?_set_ne this]
+
+/-! ### PWL: constant keypoint outputs = all heights zero -/
+theorem diffs_all_zero {v : List Rat} (h : ∀ t ∈ v, t = 0) : ∀ t ∈ diffs v, t = 0 := by
+  induction v with
+  | nil => intro t ht; simp at ht
+  | cons x xs ih =>
+    cases xs with
+    | nil => intro t ht; simp at ht
+    | cons y ys =>
+      intro t ht
+      rw [diffs_cons_cons, List.mem_cons] at ht
+      rcases ht with rfl | ht
+      · rw [h x (by simp), h y (by simp)]; ring
+      · exact ih (fun t ht => h t (List.mem_cons_of_mem _ ht)) t ht
+
+/-- the keypoint outputs of a column are constant iff all its heights (rows `1..`) are zero: `⇒` -/
+theorem heights_zero_of_outs_const {x : List Rat} {a : Rat}
+    (h : outs x = (List.range x.length).map (fun _ => a)) : ∀ t ∈ x.drop 1, t = 0 := by
+  cases x with
+  | nil => intro t ht; simp at ht
+  | cons b hs =>
+    have e : diffs (outs (b :: hs)) = hs := diffs_cumFrom b hs
+    rw [h, List.range_eq_range', diffs_map_range'] at e
+    intro t ht
+    simp only [List.drop_one, List.tail_cons] at ht
+    rw [← e] at ht
+    obtain ⟨j, _, rfl⟩ := List.mem_map.mp ht
+    ring
+
+theorem cumFrom_zero (b : Rat) (hs : List Rat) (h : ∀ t ∈ hs, t = 0) :
+    cumFrom b hs = (List.range (hs.length + 1)).map (fun _ => b) := by
+  induction hs generalizing b with
+  | nil => rfl
+  | cons y ys ih =>
+    have hy : y = 0 := h y (by simp)
+    subst hy
+    rw [cumFrom, add_zero, ih b (fun t ht => h t (List.mem_cons_of_mem _ ht))]
+    simp [List.range_succ_eq_map]
+
+/-- `⇐`: a column whose heights are all zero has constant outputs (its bias) -/
+theorem outs_const_of_heights_zero {b : Rat} {hs : List Rat} (h : ∀ t ∈ hs, t = 0) :
+    outs (b :: hs) = (List.range (b :: hs).length).map (fun _ => b) := cumFrom_zero b hs h
+
+theorem mem_zero_append {u v : List Rat} (hu : ∀ t ∈ u, t = 0) (hv : ∀ t ∈ v, t = 0) :
+    ∀ t ∈ u ++ v, t = 0 := by
+  intro t ht
+  rcases List.mem_append.mp ht with h | h
+  · exact hu t h
+  · exact hv t h
+
+/-- all heights zero ⇒ every term of the three regularizers is zero, cyclic or not: the wrap-around
+height `-(Σ heights)` is zero too -/
+theorem pwlLapTerms_zero (cyc : Bool) {x : List Rat} (h : ∀ t ∈ x.drop 1, t = 0) :
+    ∀ t ∈ pwlLapTerms cyc x, t = 0 := by
+  have hs : rsum (x.drop 1) = 0 := rsum_eq_zero h
+  unfold pwlLapTerms
+  cases cyc
+  · simpa using h
+  · simp only [if_true, hs, neg_zero]
+    exact mem_zero_append h (by simp)
+
+theorem pwlHessTerms_zero (cyc : Bool) {x : List Rat} (h : ∀ t ∈ x.drop 1, t = 0) :
+    ∀ t ∈ pwlHessTerms cyc x, t = 0 := by
+  have hs : rsum (x.drop 1) = 0 := rsum_eq_zero h
+  unfold pwlHessTerms
+  cases cyc
+  · simpa using diffs_all_zero h
+  · simp only [if_true, hs, neg_zero]
+    apply diffs_all_zero
+    exact mem_zero_append (mem_zero_append h (by simp)) (fun t ht => h t (List.mem_of_mem_take ht))
+
+theorem pwlWrinkleTerms_zero (cyc : Bool) {x : List Rat} (h : ∀ t ∈ x.drop 1, t = 0) :
+    ∀ t ∈ pwlWrinkleTerms cyc x, t = 0 := by
+  have hs : rsum (x.drop 1) = 0 := rsum_eq_zero h
+  unfold pwlWrinkleTerms
+  split
+  · intro t ht; simp at ht
+  · cases cyc
+    · simpa using diffs_all_zero (diffs_all_zero h)
+    · simp only [if_true, hs, neg_zero]
+      apply diffs_all_zero
+      apply diffs_all_zero
+      exact mem_zero_append (mem_zero_append (mem_zero_append h (by simp))
+        (fun t ht => h t (List.mem_of_mem_take ht)))
+        (fun t ht => h t (List.mem_of_mem_drop (List.mem_of_mem_take ht)))
 end Tfl.Reg
